@@ -26,7 +26,7 @@ def gen_script(rng, sw, spec, idx, tier, prop):
     nsrc = 0
     avoid_f_c01_1 = t == "hist" and (idx // len(FTYPES)) % 6 != 0  # avoid filter for known finding F-C01-1
     avoid_model_rel = False  # (finding F-C10-2 is fixed: no avoid filter)
-    special = ["none", "model_first", "model_only", "all_disabled_but_one", "after_move", "container_with_sources", "none", "none"][(idx // len(FTYPES)) % 8]
+    special = ["none", "model_first", "model_only", "all_disabled_but_one", "after_move", "container_with_sources", "replace_data", "none"][(idx // len(FTYPES)) % 8]
     n_mut = sw.randint(1, 7 if tier == "quick" else 12)
     cost = spec["cost"]
     want_errors = cost in fitlib.NEEDS_ERRORS or (cost in ("chi2", "chi2_fast") and sw.random() < 0.85) or (cost.startswith("gauss") and sw.random() < 0.5)
@@ -42,6 +42,17 @@ def gen_script(rng, sw, spec, idx, tier, prop):
             nsrc += 1
     if special == "after_move":
         ops.append(["set_all", fitlib.gen_point(rng, spec, 0.3)])
+    if special == "replace_data" and t in ("xy", "indexed") and cost not in fitlib.POISSON_LIKE:
+        # the data (and with them every data-referenced source) are replaced by a container that brings its own sources; the fit may have been
+        # created without any uncertainty (implicit chi2 without errors) or may already have sources of its own
+        if rng.random() < 0.5:
+            want_errors = False
+        nd = fitlib.gen_new_data(rng, spec)
+        if not nd.get("sources"):
+            nd = fitlib._with_sources(_Always(rng), spec, {k: v for k, v in nd.items() if k != "sources"})
+        late_replace = nd
+    else:
+        late_replace = None
     if want_errors:
         if special == "model_first":
             ops.append(fitlib.gen_source(rng, spec, nsrc, force={"ref": "model", "kind": "simple", "axis": "y" if t == "xy" else None, "rel": (False if (t == "hist" or avoid_model_rel) else rng.random() < 0.4)}))
@@ -59,9 +70,13 @@ def gen_script(rng, sw, spec, idx, tier, prop):
             op[1]["corr"] = rng.choice([0.0, 0.0, 0.3])
             ops.append(op)
             nsrc += 1
+    if late_replace is not None:
+        ops.append(["set_data", late_replace])
+        nsrc = len(late_replace.get("sources") or [])
+        want_errors = want_errors or nsrc > 0
     pool = ["source"] * (3 if want_errors and special != "model_only" else 0) + ["toggle"] * (2 if want_errors else 0) + ["constraint"] * 2 + ["par"] * 2 + ["gc", "collide"]
     if prop == "C10":
-        pool += ["fixrel"] * 5 + ["constraint"] * 3
+        pool += ["fixrel"] * 5 + ["constraint"] * 3 + ["bad"]
     midread = sw.random() < 0.3
     if midread:
         pool += ["read"] * 3  # "at any point": the observation may also follow earlier reads between the mutators
@@ -75,9 +90,13 @@ def gen_script(rng, sw, spec, idx, tier, prop):
             nsrc += 1
         elif k == "toggle" and nsrc > 1:
             i = rng.randrange(nsrc)
+            if midread and rng.random() < 0.5:
+                ops.append(["read", "cost"])  # the source's matrix has been evaluated (and cached) before it is switched off
             ops.append(["disable", i])
             if rng.random() < 0.6:
                 if midread and rng.random() < 0.6:
+                    if rng.random() < 0.5:
+                        ops.append(["set_all", "PROBE"])  # the values move while the source is disabled - to a point that is observed later without setting it again
                     ops.append(["read", "cost"])
                 ops.append(["enable", i])
         elif k == "constraint" and sum(1 for o in ops if o[0] in ("constraint", "mconstraint")) < 3:
@@ -103,6 +122,9 @@ def gen_script(rng, sw, spec, idx, tier, prop):
                 ops.append(["release", nm])
         elif k == "gc":
             ops.append(["gc"])
+        elif k == "bad":
+            # a call that kafe2 rejects (unknown name) somewhere in the history: the counts must be those of the valid calls only
+            ops.append(["bad", rng.choice(["fix_value", "fix", "release", "constraint", "limit"])])
         elif k == "read":
             ops.append(["read", rng.choice(["cost", "cost", "total_error", "ndf"])])
         elif k == "collide" and nsrc and nsrc < 6 and want_errors:
@@ -117,6 +139,23 @@ def gen_script(rng, sw, spec, idx, tier, prop):
             if i != keep:
                 ops.append(["disable", i])
     return pre, ops
+
+
+class _Always(object):
+    """rng proxy whose first random() is 1.0 (takes the 'with sources' branch of fitlib._with_sources), everything else passed through."""
+
+    def __init__(self, rng):
+        self._rng = rng
+        self._first = True
+
+    def random(self):
+        if self._first:
+            self._first = False
+            return 1.0
+        return self._rng.random()
+
+    def __getattr__(self, name):
+        return getattr(self._rng, name)
 
 
 class CostMachine(Machine):
@@ -135,6 +174,10 @@ class CostMachine(Machine):
         probes = [list(spec["ptrue"])] + [fitlib.gen_point(rng, spec) for _ in range(sw.randint(1, 3))]
         if sw.random() < 0.3:
             probes.append(None)  # the fit's own defaults: no set_all before the observation
+        target = [q for q in probes[1:] if q is not None]
+        for op in ops:
+            if op[0] == "set_all" and op[1] == "PROBE":
+                op[1] = list(target[0]) if target else fitlib.gen_point(rng, spec, 0.3)
         allops = [["new", spec, pre]] + ops + [["probe", probes]]
         return {"machine": self.name, "seed": seed, "knobs": {"order": sw.choice(["shuffle", "insertion"]), "do_fit": sw.random() < 0.35, "fit_first": sw.random() < 0.2}, "ops": allops}
 
@@ -171,6 +214,8 @@ class CostMachine(Machine):
             if k in ("add_error", "add_matrix_error"):
                 a = op[1]
                 k = "%s:%s:%s%s" % (k, a["ref"], "rel" if a["rel"] else "abs", (":x" if a.get("axis") in ("x", 0, "0") else ""))
+            if k == "bad":
+                k = "rejected:" + str(op[1])
             if k not in kinds and k not in ("probe", "gc"):
                 kinds.append(k)
         if case["ops"][0][0] == "new" and case["ops"][0][2]:
@@ -189,6 +234,15 @@ class CostMachine(Machine):
                 continue
             if k == "gc":
                 world.collect()
+                continue
+            if k == "bad":
+                try:
+                    {"fix_value": lambda: sim.fit.fix_parameter("no_such_parameter", 1.0), "fix": lambda: sim.fit.fix_parameter("no_such_parameter"),
+                     "release": lambda: sim.fit.release_parameter("no_such_parameter"), "limit": lambda: sim.fit.limit_parameter("no_such_parameter", 0.0, 1.0),
+                     "constraint": lambda: sim.fit.add_parameter_constraint("no_such_parameter", 1.0, 0.1)}[op[1]]()
+                    res.bump("rejected_call_was_accepted")  # (C19's question, not judged here)
+                except Exception:
+                    res.probe("rejected_call_in_history")
                 continue
             if k == "read":
                 # an intermediate read; what it returns is judged by the probes of other runs, here it only creates cache history
@@ -281,8 +335,10 @@ class CostMachine(Machine):
                 except Exception as e:
                     res.bump("discard_do_fit_raised_" + type(e).__name__)
                     return
-        if p is not None:
-            fit.set_all_parameter_values(list(p))
+        if p is not None and [float(v) for v in fit.parameter_values] != [float(v) for v in p]:
+            fit.set_all_parameter_values(list(p))  # (a point the script has already moved to is observed as it is: "at any parameter point")
+        else:
+            res.probe("observed_without_setting_the_point_again")
         eps = ref.slope_rel_error_bound(p_eff)
         exp = ref.cost(p_eff)
         got = fit.cost_function_value
@@ -440,8 +496,8 @@ class CostMachine(Machine):
                 raise Violation("C10", "count", "ndf", "ndf is %r; data points %d + constraint measurements %d - parameters %d + fixed %d = %d" % (
                     got, len(ref.d), sum(c.extra_ndf for c in ref.constraints), ref.n_par, len(ref.fixed), exp_ndf), step=pi, expected=exp_ndf, actual=got)
             log.add(["ndf", pi], "ok", int(got))
-            if do_fit:
-                return
+            if do_fit and which == "ndf":
+                which = "chi2p"  # "before and after fitting": the formulas at the fitted point (the minimizer may have switched to the pointwise cost node)
         if which == "gof":
             exp = ref.gof(p_eff)
             got = fit.goodness_of_fit
